@@ -1197,3 +1197,44 @@ def nu_deep_meta_probe(depths=(3, 126, 127, 140)):
         return out
     finally:
         cl.close()
+
+
+def wire_boundary_probe(seed):
+    """C12 at the HTTP boundary: malformed TTLs / read options / ids are answered 4xx and never stored; well-formed ones
+    are stored with exactly the TTL the grammar assigns (checked against the extracted parse_ttl by the caller)"""
+    import urllib.parse
+    r = random.Random(seed)
+    cl = Client("api")
+    out = dict(violations=[], probes=0, accepted=[], rejected=0)
+    try:
+        bad = ["head:0", "head:-1", "head:4294967296", "head:x", "head:", "time:-5", "time:18446744073709551616", "time:1.5", "time:",
+               "never", "", "Forever", "forever ", "ephemeral:1", "head:1:2", "time:1e3", "head:+1 "]
+        good = ["forever", "ephemeral", "time:0", "time:1500", "time:18446744073709551615", "head:1", "head:4294967295", "head:+7", "time:+3"]
+        pool = [(t, False) for t in bad] + [(t, True) for t in good]
+        r.shuffle(pool)
+        for t, ok in pool:
+            before = cl.dump() or []
+            st, hd, body = cl.request(H.render("POST", "/wire?ttl=" + urllib.parse.quote(t, safe=""), body=b"x"))
+            after = cl.dump() or []
+            out["probes"] += 1
+            if st == 200:
+                try:
+                    out["accepted"].append((t, json.loads(body).get("ttl")))
+                except Exception:
+                    out["accepted"].append((t, "?"))
+            else:
+                out["rejected"] += 1
+            if not ok and (st is None or not (400 <= st < 500) or len(after) != len(before)):
+                out["violations"].append(dict(what=f"POST /wire?ttl={t!r} (malformed TTL) answered {st} and the store went from {len(before)} to "
+                                                   f"{len(after)} frames; expected a 4xx and nothing stored"))
+            if ok and st != 200:
+                out["violations"].append(dict(what=f"POST /wire?ttl={t!r} (well-formed TTL) answered {st}"))
+        for q in ["limit=-1", "limit=x", "limit=18446744073709551616", "last-id=zz", "context-id=1", "follow=maybe", "tail=true&tail=false",
+                  "last-id=" + "z" * 25, "follow=-5"]:
+            st, hd, body = cl.request(H.render("GET", "/?" + q))
+            out["probes"] += 1
+            if st is None or not (400 <= st < 500):
+                out["violations"].append(dict(what=f"GET /?{q} (malformed read option) answered {st}; expected a 4xx"))
+        return out
+    finally:
+        cl.close()
